@@ -43,9 +43,9 @@ CLAIMS = {
         note="sequential execution only (Kani has no threads); capacities enumerated, not symbolic; compare_exchange_weak never fails spuriously. The async Sender::send / Receiver::recv paths and their wake-up pairing are decided only BOUNDED and only for cooperative schedules on one thread: stand-in xchan runs the real channel.rs + queue.rs (stub crates for async_event, diatomic_waker, recycle_box, crossbeam_utils) with two senders and the receiver under every schedule up to the bound - capacity, exactly-once in producer order, length, waiting tasks resumed, close; interleavings of threads inside one operation are not decided",
         ref="DESIGN.md §5 C12", tech="Kani (CBMC) inductive per-operation contract harnesses appended to the real channel/queue.rs; complete per capacity; bounded executable stand-in (xchan) for send / recv / wake-ups on one thread, labelled bounded"),
     "C14": dict(
-        text="Second sentence - PROOF: Verus proves that Output::{connect, connect_sink} and Requestor::connect add exactly one connection to the value shared by all clones (CachedRwLock::write) and that Output::send / Requestor::send broadcast over a copy synchronised with that shared value (unit ports); Kani proves (loop-free, all u32 values) the CachedRwLock contract this rests on: write bumps the shared epoch exactly once and every clone's next read sees the new value. First sentence - BOUNDED only (stand-in xbcast, never counted as proved): the real text of ports/output/broadcaster.rs and util/task_set.rs, driven on one thread with 1..3 scripted repliers (quick; 4 thorough), every accept/filter pattern, every subset replying late, every completion order, spurious and late wake-ups, partially consumed or dropped earlier queries, clones: the query broadcast returns exactly one reply per accepting replier, computed from the request, in connection order, only after all of them replied, and is never left un-woken.",
+        text="Second sentence - PROOF: Verus proves that Output::{connect, connect_sink} and Requestor::connect add exactly one connection to the value shared by all clones (CachedRwLock::write) and that Output::send / Requestor::send broadcast over a copy synchronised with that shared value (unit ports); Kani proves (loop-free, all u32 values) the CachedRwLock contract this rests on: write bumps the shared epoch exactly once and every clone's next read sees the new value; BOUNDED under thread interleavings (stand-in lcrw: loom model checking of the real CachedRwLock, three threads, preemption bound 3): a read that happens after a write returned sees it and a clone's view never goes back. First sentence - BOUNDED only (stand-in xbcast, never counted as proved): the real text of ports/output/broadcaster.rs and util/task_set.rs, driven on one thread with 1..3 scripted repliers (quick; 4 thorough), every accept/filter pattern, every subset replying late, every completion order, spurious and late wake-ups, partially consumed or dropped earlier queries, clones: the query broadcast returns exactly one reply per accepting replier, computed from the request, in connection order, only after all of them replied, and is never left un-woken.",
         note="sequential execution throughout: interleavings of repliers' wake-ups on DIFFERENT threads (the lock-free Treiber stack of TaskSet under the C11 model) are not decided; map/filter_map connect variants (Fn closures) are not under contract; the source-side broadcasters (ports/source) are not covered",
-        ref="DESIGN.md §5 C14", tech="Verus contracts on the extracted port wrappers + Kani (CBMC) complete harness appended to the real util/cached_rw_lock.rs; bounded executable stand-in (xbcast) for the query broadcast, labelled bounded"),
+        ref="DESIGN.md §5 C14", tech="Verus contracts on the extracted port wrappers + Kani (CBMC) complete harness appended to the real util/cached_rw_lock.rs; bounded stand-ins: lcrw (loom, the real CachedRwLock under thread interleavings) and xbcast (the query broadcast on one thread), labelled bounded"),
     "C16": dict(
         text="Partly proof, partly bounded, partly undecided. PROOF (Verus, unit reg): every model registered through SimInit::add_model or BuildContext::add_submodel, to any depth, is spawned exactly once as one task whose Context carries the qualified name parent.child (\"<unknown>\" for an empty name), and that same name is what model_names[id] and the observer list report (third sentence); (unit sim) SimInit::init enters the executor exactly once, after the time write and the synchronize, and spawns nothing itself. BOUNDED (stand-in xreg, every hierarchy of up to 4 models, depth <= 3; never counted as proved): the real async model task of simulation::add_model, run through the real SimInit::{add_model, init}, calls each model's init exactly once, during SimInit::init, before that model takes its first message, under the qualified name.",
         note="not decided: that messages sent before a model's init are kept and processed afterwards (mailbox retention is the sequential half of C12; the wake-up path is async), and everything that depends on the executors' schedules; the async block itself is outside Verus (R8), hence the bounded stand-in",
